@@ -96,6 +96,7 @@ impl C02 {
             None => return false,
         };
         ctx.nontrivial(hash64(&d[..a.size.min(d.len())]));
+        ctx.count(if a.params.contains("Lazy") { "modelled:lazy" } else if a.params.contains("hash_algorithm: None") { "modelled:no_dictionary" } else { "modelled:greedy" });
         // (a) reconstruction reproduces exactly the consumed prefix
         for (name, r) in [("verify=false", &rf), ("verify=true", &rt)] {
             let a = match r.as_ok() {
